@@ -68,7 +68,7 @@ Init == /\ env \in Envs
 
 Record(op, o) == /\ hist' = Append(hist, op)
                  /\ obsv' = Append(obsv, o)
-Obs(c, g, res) == [ctx |-> Effective(c), raw_depth |-> c.depth, global |-> g, res |-> res]
+Obs(c, g, res) == [ctx |-> Effective(c), raw_depth |-> c.depth, global |-> g, res |-> res, asis |-> res]
 
 Enter(o) ==
   /\ Len(stack) < MaxNest /\ Len(hist) < MaxOps
@@ -95,6 +95,18 @@ PolarsValidate(kind, scope) ==
      IN Record([op |-> "polars_validate", kind |-> kind, scope |-> scope], Obs(ctx, global, res))
   /\ UNCHANGED <<env, global, ctx, stack, ghost>>
 
+(* a stand-alone polars Column(...).validate(obj) (pandera/api/polars/components.py): the design is the   *)
+(* documented default per container kind; the shipped method re-enters the CONTEXT depth only, so a      *)
+(* LazyFrame is validated at full depth by default (finding PolarsColumnLazyFrameFullDepth; asis field)  *)
+PolarsColumnValidate(kind, scope) ==
+  /\ Len(hist) < MaxOps
+  /\ LET d == PolarsDepth(kind, ctx, global)
+         res == IF ~ctx.enabled THEN "returned" ELSE IF Rejects(d, scope) THEN "rejected" ELSE "returned"
+         asis == IF ~ctx.enabled THEN "returned" ELSE IF Rejects(Effective(ctx).depth, scope) THEN "rejected" ELSE "returned"
+     IN Record([op |-> "polars_column_validate", kind |-> kind, scope |-> scope],
+               [Obs(ctx, global, res) EXCEPT !.asis = asis])
+  /\ UNCHANGED <<env, global, ctx, stack, ghost>>
+
 (* schema.validate on pandas: disabled validation returns the argument *)
 PandasValidate(scope) ==
   /\ Len(hist) < MaxOps
@@ -106,6 +118,7 @@ PandasValidate(scope) ==
 Next == \/ \E o \in EnterOpts : Enter(o)
         \/ \E x \in BOOLEAN : Exit(x)
         \/ \E kd \in {"dataframe", "lazyframe"}, sc \in {"data", "schema"} : PolarsValidate(kd, sc)
+        \/ \E kd \in {"dataframe", "lazyframe"}, sc \in {"data", "schema"} : PolarsColumnValidate(kd, sc)
         \/ \E sc \in {"data", "schema"} : PandasValidate(sc)
 Spec == Init /\ [][Next]_vars
 
